@@ -125,6 +125,13 @@ CHECKS = {
              "differences of the same functions (two step sizes must agree); the data factor is compared with vec_F(H_k - H)/sqrt(nb(nb-1)); SSIcov(calc_unc) is "
              "checked to feed exactly that factor through the same propagation.",
         ref="3/C17"),
+    "C19": dict(
+        technique="runtime monitoring: ground-truth oracle on geometry objects built from generated table sets (labelled rows, prime-valued shapes), single-fault corruptions, artist read-back",
+        text="Exploration: valid table sets with rows permuted against the sensor order are passed through def_geoN_by_file (reader replaced by the tables pandas "
+             "returns), def_geoN with the documented argument types and check_on_geoN on real SingleSetup / MultiSetup_PreGER objects; row k of every table must "
+             "be the row labelled names[k], indices zero-based, omitted sheets None/default; 25 single-fault corruptions must raise ValueError; prime-valued "
+             "mode shapes identify every mapped cell; quiver segments and displaced points are read back from Agg figures.",
+        ref="3/C19"),
 }
 
 PENDING_REASON = "check not built yet in this session (work in progress; the design in DESIGN.md section 3 applies)"
